@@ -1,7 +1,7 @@
 (* Numbers naming: every history of writes, flushes, triggers and clock ticks refines the abstract
    reader's view (closed files, current content). *)
 Require Import FL.Base.Bytes FL.Base.BytesFacts FL.Base.PathName FL.Fs.Fs FL.Fs.FsFacts FL.Time.Civil FL.Time.TsFormat
-  FL.Names.FileSpec FL.Names.NamesFacts FL.Flw.Model FL.Flw.ModelFacts FL.Flw.NumFs FL.Flw.NumInv FL.Flw.Run.
+  FL.Names.FileSpec FL.Names.NamesFacts FL.Flw.Model FL.Flw.ModelFacts FL.Flw.NumFs FL.Flw.NumInv FL.Flw.Run FL.Flw.RunFacts.
 From Coq Require Import ZifyN ZifyNat ZifyBool.
 Open Scope nat_scope.
 
@@ -86,9 +86,12 @@ Proof. intros [Q W Hc Hcp Hcl Hon Hwr Hcap] F Q'. constructor; try rewrite F; as
 (* the configurations covered are synchronous: a step is a step of the synchronous handle *)
 Lemma step_sync_rel c crit x a o : numcfg c crit -> Rel c crit x a -> step x o = sync_step x o.
 Proof.
-  intros [_ [_ [_ Ha]]] [_ [_ R]]. unfold step. destruct a as [[closed cur]|].
-  - destruct R as [wr [roll [Es _]]]. rewrite Es. unfold is_async, st_of. cbn [f_cfg]. rewrite Ha. reflexivity.
-  - destruct R as [Es _]. rewrite Es. unfold is_async, new_flw. cbn [f_cfg]. rewrite Ha. reflexivity.
+  intros [_ [Hts [_ Ha]]] [_ [_ R]].
+  assert (E : exists s, s_flw x = Some s /\ f_cfg s = c).
+  { destruct a as [[closed cur]|]; [destruct R as [wr [roll [Es _]]] | destruct R as [Es _]]; rewrite Es; eexists; split; reflexivity. }
+  destruct E as [s [Es Ec]].
+  rewrite step_plain by (intros s' Es'; rewrite Es in Es'; injection Es' as <-; rewrite Ec; exact Hts).
+  unfold step_core. rewrite Es. unfold is_async. rewrite Ec, Ha. reflexivity.
 Qed.
 
 (* one basic operation *)
